@@ -25,6 +25,8 @@ func runC17(w *core.World, r *core.Report) {
 	r.Rule("R2", "the validators are applied to the Exec parameter")
 	r.Rule("R4", "Flush: render and client writes only behind execd==true; refusal is ErrFlushNoExec")
 	r.Rule("R5", "Finish saves only behind initd==true; initd set only by the post-acceptance initialisation")
+	r.Rule("R10", "vm.ValidInput matches the bytes it was given, not a modified copy")
+	r.Rule("R9", "where Loop reads with bufio's ReadLine, the continuation flag is used")
 	r.Rule("R8", "engine.Loop finishes (saves) the engine on every exit, also after a refused input")
 	r.Rule("R7", "vm.ValidInput is a function of its argument alone: no store to package-level state in it or the vm functions it calls")
 	r.Rule("R6", "the built-in input pattern is anchored at both ends and its wildcard excludes line breaks (regexp/syntax on the constant)")
@@ -260,6 +262,8 @@ func runC17(w *core.World, r *core.Report) {
 	// ---- R7 -----------------------------------------------------------------------------------
 	checkValidInputPure(w, r, "R7")
 	checkLoopAlwaysFinishes(w, r, "R8")
+	checkReadLinePrefixUsed(w, r, "R9")
+	checkValidatedBytesAreInput(w, r, "R10")
 }
 
 // pureHelper: a module function without stores to fields/globals, map updates, or calls other than
